@@ -14,7 +14,7 @@ import itertools
 PROPERTY = 'C08'
 TIMEOUT = 40.0
 CHUNK = 16
-FLOOR = 0.45
+FLOOR = 0.5
 RULE = ('det: every assignment of the 10 bound patterns {free,>=0,<=0,lower!=0,upper!=0,both,[0,u],[l,0],fixed 0,'
         'fixed !=0} to n=2 variables x 7 row-sense mixes (1-3 rows of <=,>=,==) x 20 cone kinds x {min,max} '
         '(thorough: + all 39 ordered row mixes x 8 cone kinds, + n=3 x 3 row mixes x 5 cone kinds); '
@@ -28,7 +28,10 @@ ASSUMPTIONS = [
     'variable, an interior centre point); the check still conditions on the solver reporting the primal optimal',
     'tolerances: HiGHS 1e-6(1+|v|), ECOS 2e-5(1+|v|) (5e-5 with exponential cones), Gurobi LP 1e-6, SOCP 2e-4',
     '"inaccurate"/failed solves of the dual are inconclusive (vacuous), a dual reported infeasible/unbounded by '
-    'the interface that solved the primal is a violation',
+    'the interface that solved the primal is a violation; Gurobi is called with NonConvex=1 and a 5 s time limit, '
+    'and a dual it refuses as non-convex (a cone head without lower bound 0) while it solved the primal is a '
+    'violation ("both programs are solvable")',
+    'cone combinations (norm+exp, ...) use one epigraph variable per cone so that both cones are active',
     'ConeConstr (the constraint class ro.Model.st accepts and le_to_rc emits) is used directly to put user '
     'variables with bound patterns into second-order cones / into two cones',
 ]
